@@ -117,7 +117,31 @@ func finishChains(run *core.Run, outs []*BatchOutcome, opts ChainOpts,
 	for _, o := range outs {
 		if o.Status != "ok" {
 			if o.Status == "analyzer-panic" {
-				run.Violation("analyzer-panic"+sigSuffix, "analyzer crashed on a generated batch:\n"+o.Detail, copyFiles(o))
+				// isolate: re-run every chain of the crashing batch alone
+				var singles []*gen.Batch
+				for _, ch := range o.Batch.Chains {
+					singles = append(singles, &gen.Batch{Chains: []gen.Chain{ch}})
+				}
+				souts := ProcessBatches(run, fmt.Sprintf("crash%d", o.Index), singles, opts)
+				isolated := false
+				for _, so := range souts {
+					if so.Status != "analyzer-panic" {
+						continue
+					}
+					isolated = true
+					sig := "analyzer-panic:" + gen.Key(so.Batch.Chains[0].Links) + sigSuffix
+					if run.IsKnown(sig) {
+						continue
+					}
+					fl := copyFiles(so)
+					for n, c := range gen.RuntimeFiles() {
+						fl["prog/"+n] = c
+					}
+					run.Violation(sig, fmt.Sprintf("analyzer crashed on chain %v:\n%s", so.Batch.Chains[0].Links, so.Detail), fl)
+				}
+				if !isolated {
+					run.Violation("analyzer-panic:batch"+sigSuffix, "analyzer crashed on a generated batch (no single chain reproduces it alone):\n"+o.Detail, copyFiles(o))
+				}
 			} else {
 				run.Inconclusive(fmt.Sprintf("batch %d: %s: %s", o.Index, o.Status, firstLine(o.Detail)))
 				if o.Status == "native-fail" {
